@@ -65,6 +65,25 @@ Theorem C15_pool_isolated : forall (R : Type) (ps : list (prog R)),
 Proof. exact @pool_isolated. Qed.
 Print Assumptions C15_pool_isolated.
 
+(* data-race freedom of the pool: the next memory operation of every thread is on the cell it
+   allocated itself and cells are never shared, in every reachable state of every schedule -
+   which is what justifies modelling the accesses to batchData.idPlaceholder as atomic steps *)
+Theorem C15_race_free : forall (R : Type) (ps : list (prog R)),
+  (forall p, In p ps -> scoped p) ->
+  forall sched h0,
+  (forall i t, nth_error (snd (run_pool sched (h0, map spawn ps))) i = Some t ->
+     match t_prog t with
+     | Load l _ => t_loc t = Some l
+     | Store l _ _ => t_loc t = Some l
+     | _ => True
+     end) /\
+  (forall i j ti tj l,
+     nth_error (snd (run_pool sched (h0, map spawn ps))) i = Some ti ->
+     nth_error (snd (run_pool sched (h0, map spawn ps))) j = Some tj ->
+     t_loc ti = Some l -> t_loc tj = Some l -> i = j).
+Proof. exact @pool_race_free. Qed.
+Print Assumptions C15_race_free.
+
 Theorem C15_request_scoped : forall cfg parent req, scoped (handle_request cfg parent req).
 Proof. exact handle_request_scoped. Qed.
 Print Assumptions C15_request_scoped.
